@@ -309,6 +309,10 @@ STRUCTS = {
     'CapabilityInformation': (O.CapabilityInformation, capability_information),
 }
 
+STRUCTS['AttestationCredential'] = (O.AttestationCredential, lambda: O.AttestationCredential(
+    nonce=O.Nonce(nonce_id=b'\x01', nonce_value=b'\x02\x03'), attestation_type=enums.AttestationType.TPM_QUOTE,
+    attestation_measurement=b'\xff' * 8))
+
 # independent oracle: tag -> version of the specification that introduced the field (harness-side copy, by tag only)
 SPEC_FIELD_MIN = {
     'ATTRIBUTES': (2, 0), 'COMMON_ATTRIBUTES': (2, 0), 'PRIVATE_KEY_ATTRIBUTES': (2, 0), 'PUBLIC_KEY_ATTRIBUTES': (2, 0),
@@ -322,7 +326,8 @@ SPEC_FIELD_MIN = {
 SPEC_STRUCT_MIN = {'Attributes': (2, 0), 'CurrentAttribute': (2, 0), 'NewAttribute': (2, 0), 'AttributeReference': (2, 0),
                    'ProtectionStorageMasks': (2, 0), 'ObjectDefaults': (2, 0), 'DefaultsInformation': (2, 0),
                    'SetAttributeRequestPayload': (2, 0), 'SetAttributeResponsePayload': (2, 0), 'RNGParameters': (1, 3),
-                   'ProfileInformation': (1, 3), 'ValidationInformation': (1, 3), 'CapabilityInformation': (1, 3)}
+                   'ProfileInformation': (1, 3), 'ValidationInformation': (1, 3), 'CapabilityInformation': (1, 3),
+                   'AttestationCredential': (1, 2)}
 
 
 def tag_names(buf):
@@ -463,7 +468,7 @@ def field_cases(ctx, cases, meta):
             meta.append(('struct-write', name, v))
             ctx.case_seen(('struct-write', name, v))
             if data is not None and SPEC_STRUCT_MIN[name] > v:
-                ctx.violation({'class': 'field-sent', 'payload': name, 'version': '%d.%d' % v}, {'class': name, 'version': v, 'hex': data.hex()[:400]},
+                ctx.violation({'class': 'field-sent', 'payload': name, 'version': '%d.%d' % v, 'site': 'objects.py:' + name}, {'class': name, 'version': v, 'hex': data.hex()[:400]},
                               '%s can be encoded under KMIP %d.%d' % (name, v[0], v[1]))
             if newest is not None:
                 ok, err = try_decode(factory, newest, kv)
@@ -473,7 +478,7 @@ def field_cases(ctx, cases, meta):
                 ctx.case_seen(('struct-read', name, v))
                 ctx.count('field.struct.%s' % ('refused' if refused else 'read'))
                 if ok and SPEC_STRUCT_MIN[name] > v:
-                    ctx.violation({'class': 'field-accepted', 'payload': name, 'version': '%d.%d' % v}, {'class': name, 'version': v, 'hex': newest.hex()[:400]},
+                    ctx.violation({'class': 'field-accepted', 'payload': name, 'version': '%d.%d' % v, 'site': 'objects.py:' + name}, {'class': name, 'version': v, 'hex': newest.hex()[:400]},
                                   '%s can be decoded under KMIP %d.%d' % (name, v[0], v[1]))
     # enums.is_attribute
     for tag in T:
